@@ -980,6 +980,43 @@ func modeRegionCalls(p *Prog, mr *ModeReach, fn *ssa.Function) []CallSite {
 // short-circuit evaluation) contain calls of both math.IsNaN and math.IsInf, every other leaf being a constant or
 // a mode bit that is true in this mode (so that, in this mode, the boolean is false only when both tests failed).
 func finiteOnly(b *ssa.BasicBlock, mode Mode) bool {
+	// the cascaded form: every mode-feasible way into the block has passed a finiteness test (a private "is finite"
+	// helper answering true, or IsNaN and IsInf both answering false)
+	{
+		var feas []*ssa.BasicBlock
+		for _, pr := range b.Preds {
+			if modeEdgeFeasible(pr, b, mode) {
+				feas = append(feas, pr)
+			}
+		}
+		all := len(feas) > 0
+		for _, pr := range feas {
+			for _, alt := range factsOfEdge(pr, b) {
+				nanF, infF, fin := false, false, false
+				for _, f := range alt {
+					call, ok := f.cond.(*ssa.Call)
+					if !ok {
+						continue
+					}
+					cal := calleeOf(call)
+					switch {
+					case cal != nil && isFinitenessHelper(cal) && f.taken:
+						fin = true
+					case cal != nil && cal.String() == "math.IsNaN" && !f.taken:
+						nanF = true
+					case cal != nil && cal.String() == "math.IsInf" && !f.taken:
+						infF = true
+					}
+				}
+				if !(fin || (nanF && infF)) {
+					all = false
+				}
+			}
+		}
+		if all {
+			return true
+		}
+	}
 	for _, g := range guardsOf(b) {
 		cond, neg := normCond(g.If.Cond)
 		if (g.Succ == 1) == neg { // we need the edge on which cond is false
@@ -1024,8 +1061,9 @@ func finiteOnly(b *ssa.BasicBlock, mode Mode) bool {
 				}
 				// a boolean setting of the encoder that did not exist when the rules were written (an opt-in for bare
 				// numbers): whatever its value, the unquoted branch still needs the finiteness tests
-				if u, isU := v.(*ssa.UnOp); isU {
-					v = u
+				if u, isU := v.(*ssa.UnOp); isU && u.Op == token.NOT {
+					walk(u.X, depth+1)
+					return
 				}
 				if base, _, fv, isF := fieldLoad(strip(v)); isF && typeName(base.Type()) == "PrintCtx" {
 					if ref := loadAnchorRef(); ref != nil && ref["field|slog|PrintCtx|"+nm(fv)] == nil {
